@@ -278,10 +278,10 @@ SUITES = {
     "C06": {"suites": [sys_suite("c06-sys", "c06_ok", {"n": 25, "shards": 10}, {"n": 200, "shards": 16}),
                        sys_suite("c06-sys-ent", "c06_ok", {"n": 25, "shards": 3}, {"n": 100, "shards": 16}, extra=["--impl", "ent"]),
                        # the dispatch context is cancelled between the fetch and the start of the work function: the run ends
-                       # cancelled without starting. The monitor has no label for that: the predicate alone is evaluated
-                       sys_pred_suite("c06-sys-cancel-in-fetch", "c06_ok", {"n": 25, "shards": 4}, {"n": 150, "shards": 16},
-                                      extra=["--cancel-in-fetch"])],
-            "rule": "three suites: pipeline schedules over the in-memory and over the ent repository (work functions ending nil / error / DeadlineExceeded / panic with string or non-string value / unknown work id / cancelled dispatcher, arbitrary completion order, 1-16 workers), held to the monitor; and a predicate-only suite in which the dispatch context is cancelled between the fetch and the start of the work function (not counted in traces_validated_against_impl); distinct = distinct sha1 of the printed label trace"},
+                       # cancelled without starting (LWorkEnd id OCanceled for an accepted id)
+                       sys_suite("c06-sys-cancel-in-fetch", "c06_ok", {"n": 25, "shards": 4}, {"n": 150, "shards": 16},
+                                 extra=["--cancel-in-fetch"])],
+            "rule": "three suites: pipeline schedules over the in-memory and over the ent repository (work functions ending nil / error / DeadlineExceeded / panic with string or non-string value / unknown work id / cancelled dispatcher, arbitrary completion order, 1-16 workers), and a suite in which the dispatch context is sometimes cancelled between the fetch and the start of the work function (the run ends cancelled without starting), all held to the monitor; distinct = distinct sha1 of the printed label trace"},
     "C20": {"suites": [sys_suite("c20-sys", "c20_ok", {"n": 25, "shards": 10}, {"n": 200, "shards": 16}, extra=["--faults"]),
                        sys_suite("c20-sys-ent", "c20_ok", {"n": 25, "shards": 3}, {"n": 100, "shards": 16}, extra=["--impl", "ent", "--faults"]),
                        # every placement of one fault (quick) and of two faults (thorough) over the scheduler's calls of base scenarios
